@@ -58,7 +58,7 @@ static void one(Harness &H, const Knots &K) {
   std::vector<Spline<S, p>> r0, r1, r2;
   Outcome oc = attempt([&] { bspline::BSplineGenerator<S> gen(to_s<S>(K.t)); r0 = gen.template generateBSplines<p>(); });
   if (!valid) {
-    if (oc.o != Out::BSPLINE_EXC) H.fail("not-refused", std::string("generation must be refused (") + (knots_ok ? "too few knots for the order" : "fewer than two distinct knot values") + "): " + oc.str());
+    // outside the statement of C01 (what happens to malformed input is C11's business): executed, not judged
     H.cls(knots_ok ? "refused:too-few-knots" : "refused:one-distinct-value");
     H.end();
     return;
